@@ -47,7 +47,9 @@ type fmtSpec struct {
 // only base-10 integer verbs: the constructor's documentation asks for exactly one %d.
 var verbs = []string{"%d", "%d", "%d", "%3d", "%05d", "%-4d", "%+d"}
 
-var literalTokens = []string{"", "n", "name ", "tbl_", "#", "%", "é", "漢", "7", "0", " ", "_x", "-", "1"}
+// ("%" stands for a literal percent sign, written %% in the format: followed by "d", "s" or "v" it
+// looks like a verb and is none)
+var literalTokens = []string{"", "n", "name ", "tbl_", "#", "%", "%", "d", "done", "s", "v", "é", "漢", "7", "0", " ", "_x", "-", "1"}
 
 func esc(s string) string { return strings.ReplaceAll(s, "%", "%%") }
 
